@@ -272,6 +272,77 @@ class _Inliner:
             walk(e)
         return out
 
+    def _header_exprs(self, s: ast.stmt):
+        exprs: List[ast.expr] = []
+        if isinstance(s, (ast.Assign, ast.AnnAssign, ast.AugAssign, ast.Expr, ast.Return)):
+            if getattr(s, 'value', None) is not None:
+                exprs.append(s.value)
+        elif isinstance(s, ast.If):
+            exprs.append(s.test)
+        elif isinstance(s, ast.For):
+            exprs.append(s.iter)
+        return exprs
+
+    def _hoist_comprehensions(self, s: ast.stmt, owner: str):
+        """<stmt with [h(..) for T in IT if C]>   ->   __cN = []; for T' in IT: if C': __cN.append(h(..)') ; <stmt with __cN>
+        for list comprehensions / generator expressions with one `for` whose element calls a helper that would be inlined at
+        statement level.  The comprehension's target is renamed (it does not leak in the original)."""
+        out: List[ast.stmt] = []
+        comps = []
+
+        def walk(e, top):
+            if isinstance(e, (ast.ListComp, ast.GeneratorExp)) and top:
+                comps.append(e)
+                return
+            if isinstance(e, (ast.ListComp, ast.SetComp, ast.DictComp, ast.GeneratorExp, ast.Lambda)):
+                return
+            if isinstance(e, (ast.BoolOp, ast.IfExp)):
+                walk(e.values[0] if isinstance(e, ast.BoolOp) else e.test, top)
+                return
+            for ch in ast.iter_child_nodes(e):
+                if isinstance(ch, ast.expr):
+                    walk(ch, top)
+        for e in self._header_exprs(s):
+            walk(e, True)
+        for comp in comps:
+            if len(comp.generators) != 1 or comp.generators[0].is_async:
+                continue
+            names = {c.func.id for c in ast.walk(comp.elt) if isinstance(c, ast.Call) and isinstance(c.func, ast.Name)}
+            hs = [n for n in names if n in self.helpers and self.helpers[n].name != owner]
+            if not hs or any(isinstance(n, (ast.ListComp, ast.SetComp, ast.DictComp, ast.GeneratorExp, ast.Lambda))
+                             for n in ast.walk(comp.elt)):
+                continue
+            g = comp.generators[0]
+            self.counter += 1
+            acc = f'__c{self.counter}'
+            tnames = sorted({n.id for n in ast.walk(g.target) if isinstance(n, ast.Name)})
+            ren = _Rename({n: f'{acc}_{n}' for n in tnames})
+            target = ren.visit(copy.deepcopy(g.target))
+            elt = ren.visit(copy.deepcopy(comp.elt))
+            conds = [ren.visit(copy.deepcopy(c)) for c in g.ifs]
+            app = ast.Expr(value=ast.Call(func=ast.Attribute(value=ast.Name(id=acc, ctx=ast.Load()), attr='append', ctx=ast.Load()),
+                                          args=[elt], keywords=[]))
+            inner: List[ast.stmt] = [app]
+            for c in reversed(conds):
+                inner = [ast.If(test=c, body=inner, orelse=[])]
+            loop = ast.For(target=target, iter=copy.deepcopy(g.iter), body=inner, orelse=[], type_comment=None)
+            init = ast.Assign(targets=[ast.Name(id=acc, ctx=ast.Store())], value=ast.List(elts=[], ctx=ast.Load()), type_comment=None)
+            for n in (init, loop):
+                for x in ast.walk(n):
+                    x.lineno = s.lineno
+                    x.col_offset = getattr(comp, 'col_offset', 0)
+                    x.end_lineno = getattr(s, 'end_lineno', s.lineno)
+                    x.end_col_offset = getattr(comp, 'end_col_offset', 0)
+            for t in ast.walk(loop.target):
+                if isinstance(t, (ast.Name, ast.Tuple, ast.List, ast.Starred)):
+                    t.ctx = ast.Store()
+            out += self.block([init, loop], owner)
+            nm = ast.Name(id=acc, ctx=ast.Load())
+            ast.copy_location(nm, comp)
+            _replace(s, comp, nm)
+            self.done += 1
+        return out
+
     def _fuse_generator(self, s: ast.For, owner: str):
         """for T in gen(args): B   ->   <gen prologue>; for T' in IT': <gen loop body>; T = <yielded>; B"""
         c = s.iter
@@ -337,6 +408,9 @@ class _Inliner:
             if isinstance(s, ast.Try):
                 for h in s.handlers:
                     h.body = self.block(h.body, owner)
+            hoisted = self._hoist_comprehensions(s, owner)
+            if hoisted:
+                new += hoisted
             calls = self._calls_in_stmt_header(s)
             for c in calls:
                 h = self.helpers.get(c.func.id)
@@ -373,6 +447,11 @@ def _replace(root: ast.AST, old: ast.AST, new: ast.AST):
                         return
 
 
+def _rebinds_free_names(inner: ast.FunctionDef, outer: ast.FunctionDef) -> bool:
+    """a closure that declares nonlocal / global names writes to the enclosing scope: not a pure helper"""
+    return any(isinstance(n, (ast.Nonlocal, ast.Global)) for n in ast.walk(inner))
+
+
 def inline_new_helpers(tree: ast.Module, module: str) -> int:
     """returns the number of call sites expanded"""
     frozen = frozen_functions()
@@ -386,16 +465,30 @@ def inline_new_helpers(tree: ast.Module, module: str) -> int:
             if h is not None:
                 helpers[n.name] = h
     generators = {n.name: n for n in tree.body if isinstance(n, ast.FunctionDef) and n.name not in known and _simple_generator(n)}
-    if not helpers and not generators:
-        return 0
     inl = _Inliner(helpers, generators)
+    nested_known = {x.split(':', 1)[1] for x in frozen.get('<nested>', []) if x.startswith(module + ':')}
+
+    def process(fn: ast.FunctionDef):
+        # new local closures (nested defs that are not in the frozen table) are helpers for the body of `fn` only
+        local = {}
+        for st in fn.body:
+            if isinstance(st, ast.FunctionDef) and f'{fn.name}.{st.name}' not in nested_known:
+                h = _normalised_helper(st)
+                if h is not None and not _rebinds_free_names(st, fn):
+                    local[st.name] = h
+        saved = inl.helpers
+        if local:
+            inl.helpers = {**saved, **local}
+        fn.body = inl.block(fn.body, fn.name)
+        inl.helpers = saved
+
     for n in tree.body:
         if isinstance(n, ast.FunctionDef) and n.name not in helpers and n.name not in generators:
-            n.body = inl.block(n.body, n.name)
+            process(n)
         elif isinstance(n, ast.ClassDef):
             for m in n.body:
                 if isinstance(m, ast.FunctionDef):
-                    m.body = inl.block(m.body, m.name)
+                    process(m)
     ast.fix_missing_locations(tree)
     tree._inline_defaulted = inl.defaulted       # [(owner function, helper, params left at default, line, call text)]
     return inl.done
